@@ -181,6 +181,49 @@ pub fn run(rep: &mut Rep) {
             }
         }
     });
+    // history (in)dependence: the published values are a function of the witness alone. Consecutive calls on
+    // one thread that share some inputs (same secret and external nullifier with different message ids, same id
+    // with different nullifiers, same everything with different x / path) must each give the formulas' values,
+    // in every order.
+    {
+        let mut rng = rng_for(rep.seed, "c04-seq");
+        let mut node = NodeRef::spawn().ok();
+        let nseq = if thorough { 400 } else { 40 };
+        for q in 0..nseq {
+            let base = &cases[(q * 37) % cases.len()].1;
+            let mut seq: Vec<(String, Witness)> = vec![("base".into(), base.clone())];
+            let limit_u = fr_to_big(&base.limit);
+            let id_u = fr_to_big(&base.msg_id);
+            // other message ids valid for the same limit
+            for d in [1u32, 2] {
+                let nid = (&id_u + d) % &limit_u;
+                if nid != id_u {
+                    let mut w = base.clone();
+                    w.msg_id = big_to_fr(&nid);
+                    seq.push((format!("same-s,e|id+{d}"), w));
+                }
+            }
+            let mut w = base.clone();
+            w.ext = base.ext + Fr::from(1u64);
+            seq.push(("same-s,id|e+1".into(), w));
+            let mut w = base.clone();
+            w.x = rand_fr(&mut rng);
+            seq.push(("same-s,e,id|other-x".into(), w));
+            let mut w = base.clone();
+            w.path[rng.gen_range(0..20)] = rand_fr(&mut rng);
+            seq.push(("same-s,e,id|other-path".into(), w));
+            let mut w = base.clone();
+            w.secret = base.secret + Fr::from(1u64);
+            seq.push(("same-e,id|s+1".into(), w));
+            seq.push(("base-again".into(), base.clone()));
+            if q % 2 == 1 {
+                seq.reverse();
+            }
+            for (l, w) in seq.iter() {
+                check_one(rep, &mut node, &format!("sequence|{l}"), w);
+            }
+        }
+    }
     // message-bytes leg: bytes 128..288 of generated messages
     let nmsg = if thorough { 120 } else { 12 };
     #[cfg(not(feature = "stateless"))]
